@@ -123,8 +123,10 @@ def execute(case, t):
 
 
 def _pinned():
+    # wide windows with sensors at 1e6: log-determinants near -900 and below (exp() of them underflows)
+    from props.C03 import _pinned_wide
     # a joint run that (on the pinned tree) switches label exactly at a series boundary: exhibits KF1 deterministically
-    return [{"front": "joint", "N": 1, "W": 1, "K": 2, "lengths": [20, 20], "regimes": 2, "mean_spread": 6.0, "data_seed": 5,
+    return _pinned_wide()[:2] + [{"front": "joint", "N": 1, "W": 1, "K": 2, "lengths": [20, 20], "regimes": 2, "mean_spread": 6.0, "data_seed": 5,
              "np_seed": 1, "py_seed": 1, "beta": 2.0, "beta_form": "scalar", "lam": 0.11, "lam_form": "scalar", "limit": 5,
              "m": 2, "biased": False, "eps": 0, "num_processors": 1, "boundary_regime_flip": True}]
 
